@@ -1102,10 +1102,24 @@ func tryReplay(r *FuncResult, o *Obl) string {
 		}
 	}
 	sb.WriteString(body)
-	sb.WriteString("(check-sat)\n")
-	script := sb.String()
+	// prefer a counterexample that can be materialised: slice parameters of bounded length
+	var small strings.Builder
+	for _, p := range fn.Params {
+		if _, ok := p.Type().Underlying().(*types.Slice); ok {
+			fmt.Fprintf(&small, "(assert (bvule (slen %s) #x0000000000000400))\n", quoteSym("p$"+sanitize(p.Name())))
+		}
+	}
+	script := sb.String() + "(check-sat)\n"
+	smallScript := sb.String() + small.String() + "(check-sat)\n"
 	termMu.Unlock()
-	sess, st := startSession(script)
+	var sess *rsession
+	st := ""
+	if small.Len() > 0 {
+		sess, st = startSession(smallScript)
+	}
+	if sess == nil {
+		sess, st = startSession(script)
+	}
 	if sess == nil {
 		return "\nreplay: the model could not be re-established (" + st + "); no-failing-input-found\n"
 	}
